@@ -4,6 +4,7 @@ import EvyV.Model.Index
 import EvyV.Driver.MapDrv
 import EvyV.Driver.BcDrv
 import EvyV.Driver.ExprDrv
+import EvyV.Driver.EvalDrv
 /-
 Line protocol driver (core-only, compiled as `lean_exe evyv`).
 One request per line, one answer per line. See DESIGN.md §3.2.
@@ -17,6 +18,7 @@ def optFloat (s : String) : Option (Option Float) :=
   if s == "-" then some none else (floatOfHex s).map some
 
 def handle (line : String) : String :=
+  if line.startsWith "eval|" then EvalDrv.handle line else
   match words line with
   | ["ping"] => "pong"
   | ["fmtnum", h] =>
